@@ -15,7 +15,7 @@ import (
 func init() {
 	register(&Spec{ID: "C13", Title: "Cancelled or closed channels never block and never deliver", Run: runC13,
 		Meta: core.Meta{
-			Explanation: "Structural conditions of non-blocking behaviour; durations are not decided. R13.11: the receiver of every Channel.Close call in Conn.Close is traced (through the snapshot slice, appends and φs) to a range over Conn.tdsChannels, never to a per-id lookup. R13.12: in Channel.Close every return dominated by the store closed = true is dominated by delete(tdsChannels, ·). R13.1: every blocking receive on Channel.packageCh, Channel.errCh or Conn.errCh is a select that also receives from Done() of the caller's context and of the connection context, each branch returning an error that wraps the respective Err() with %w; plain receives occur only after close() of the same channel (the drain in Close). R13.2 (E-LOCK, blocking-under-lock): every send on those channels is examined — a bare send (no select with an escape) executed while the channel's RWMutex is held blocks Close (which needs the write lock); a bare send on Conn.errCh parks the reader goroutine beyond Conn.Close. Bare sends on the reader goroutine's path (functions statically reachable from (*Conn).ReadFrom) are reported as one obligation per queue, bare sends anywhere else one per function. R13.3: every *Channel method that touches the queues or Go channels tests `closed` under the channel lock first (closed edge returns ErrChannelClosed or returns without effect); Close sets closed under the write lock, removes the channel from the connection, and closes both Go channels before draining them. R13.4: in sendPackets every sendPacket call lies in the default arm of a non-blocking select over the caller's and the connection's Done(). R13.5: every path through Conn.Close calls ctxCancel() and conn.Close() and closes the snapshot of channels; Logout bounds its waits with context.WithTimeout. R13.6: the reader loop tests the connection context at its head with an exit and passes that context to Packet.ReadFrom. R13.7 (E-LOCK): no call (including deferred calls, replayed LIFO at each exit) re-acquires a sync.RWMutex the caller already holds — recursive read locking deadlocks against a pending writer. R13.9 (E-LOCK): wherever Conn.tdsChannelsLock is held (read or write) no channel send, blocking receive/select or call that transitively contains one is executed — a reader parked on one channel's full queue would otherwise hold the connection-wide lock that Close and NewChannel of every other channel need. R13.2 also covers every other send in package tds: it is accepted only as the single send on a buffered channel made by the same call (NextPackage's no-wait slot). R13.10: no branch condition in package tds is computed from len() or cap() of a Go channel. R13.8: in every *Channel method with a ctx parameter, every context argument passed on derives from that parameter.",
+			Explanation: "Structural conditions of non-blocking behaviour; durations are not decided. R13.13: Conn.ctx is stored in NewConn only, from context.With*(…) of NewConn's own context parameter. R13.11: the receiver of every Channel.Close call in Conn.Close is traced (through the snapshot slice, appends and φs) to a range over Conn.tdsChannels, never to a per-id lookup. R13.12: in Channel.Close every return dominated by the store closed = true is dominated by delete(tdsChannels, ·). R13.1: every blocking receive on Channel.packageCh, Channel.errCh or Conn.errCh is a select that also receives from Done() of the caller's context and of the connection context, each branch returning an error that wraps the respective Err() with %w; plain receives occur only after close() of the same channel (the drain in Close). R13.2 (E-LOCK, blocking-under-lock): every send on those channels is examined — a bare send (no select with an escape) executed while the channel's RWMutex is held blocks Close (which needs the write lock); a bare send on Conn.errCh parks the reader goroutine beyond Conn.Close. Bare sends on the reader goroutine's path (functions statically reachable from (*Conn).ReadFrom) are reported as one obligation per queue, bare sends anywhere else one per function. R13.3: every *Channel method that touches the queues or Go channels tests `closed` under the channel lock first (closed edge returns ErrChannelClosed or returns without effect); Close sets closed under the write lock, removes the channel from the connection, and closes both Go channels before draining them. R13.4: in sendPackets every sendPacket call lies in the default arm of a non-blocking select over the caller's and the connection's Done(). R13.5: every path through Conn.Close calls ctxCancel() and conn.Close() and closes the snapshot of channels; Logout bounds its waits with context.WithTimeout. R13.6: the reader loop tests the connection context at its head with an exit and passes that context to Packet.ReadFrom. R13.7 (E-LOCK): no call (including deferred calls, replayed LIFO at each exit) re-acquires a sync.RWMutex the caller already holds — recursive read locking deadlocks against a pending writer. R13.9 (E-LOCK): wherever Conn.tdsChannelsLock is held (read or write) no channel send, blocking receive/select or call that transitively contains one is executed — a reader parked on one channel's full queue would otherwise hold the connection-wide lock that Close and NewChannel of every other channel need. R13.2 also covers every other send in package tds: it is accepted only as the single send on a buffered channel made by the same call (NextPackage's no-wait slot). R13.10: no branch condition in package tds is computed from len() or cap() of a Go channel. R13.8: in every *Channel method with a ctx parameter, every context argument passed on derives from that parameter.",
 			NotDecided:  "Latencies, goroutine counts and races between cancel and delivery are not decided; schedules are not explored.",
 			Assumptions: []string{"sync.RWMutex blocks new readers behind a pending writer (documented)", "select semantics of the Go specification"},
 		}})
@@ -33,13 +33,15 @@ func runC13(r *core.Run) {
 	r.Rule("R13.7", "no re-acquisition of a held RWMutex through a callee (incl. deferred calls)", 40, true)
 	r.Rule("R13.8", "context arguments derive from the caller's ctx", 7, true)
 	r.Rule("R13.9", "the connection's channel-map lock is never held across an operation that can block on a queue", 1, false)
-	defer c13NoBlockUnderMapLock(r, la)
+	defer c13NoBlockUnderMapLock(r, la, "R13.9")
 	r.Rule("R13.10", "no control decision on len()/cap() of a Go channel", 1, false)
 	defer c13NoLenOfChan(r, la)
 	r.Rule("R13.11", "Conn.Close closes the values of a range over the channel map", 1, false)
 	defer c13CloseAll(r)
 	r.Rule("R13.12", "Channel.Close unregisters the channel on every path that marks it closed", 1, false)
 	defer c13Unregister(r)
+	r.Rule("R13.13", "the connection's context descends from the context passed to NewConn", 1, false)
+	defer c13ConnCtx(r)
 
 	designated := map[*types.Var]string{
 		p.Field("tds", "Channel", "packageCh"): "Channel.packageCh",
@@ -623,7 +625,7 @@ func c13Reacquire(r *core.Run, la *lockAnalysis) {
 }
 
 // c13NoBlockUnderMapLock: R13.9.
-func c13NoBlockUnderMapLock(r *core.Run, la *lockAnalysis) {
+func c13NoBlockUnderMapLock(r *core.Run, la *lockAnalysis, rule string) {
 	// functions that can block on a Go channel (send, blocking receive or blocking select), transitively
 	blocks := map[*ssa.Function]string{}
 	direct := func(fn *ssa.Function) string {
@@ -708,12 +710,12 @@ func c13NoBlockUnderMapLock(r *core.Run, la *lockAnalysis) {
 					}
 				}
 				if what != "" {
-					r.Bad("R13.9", core.FuncName(fn)+": blocking operation under Conn.tdsChannelsLock", in.Pos(), what+" is executed while "+k+" is held: when the queue is full the goroutine parks holding the connection-wide lock, and Close/NewChannel of every other channel (which need the write lock) hang")
+					r.Bad(rule, core.FuncName(fn)+": blocking operation under Conn.tdsChannelsLock", in.Pos(), what+" is executed while "+k+" is held: when the queue is full the goroutine parks holding the connection-wide lock, and Close/NewChannel of every other channel (which need the write lock) hang")
 				}
 			}
 		}
 	}
-	r.Check(regions >= 3, "R13.9", "critical sections of Conn.tdsChannelsLock are free of blocking operations", token.NoPos, fmt.Sprintf("%d critical sections inspected", regions), "fewer than three critical sections of tdsChannelsLock seen: the rule does not see the code")
+	r.Check(regions >= 3, rule, "critical sections of Conn.tdsChannelsLock are free of blocking operations", token.NoPos, fmt.Sprintf("%d critical sections inspected", regions), "fewer than three critical sections of tdsChannelsLock seen: the rule does not see the code")
 }
 
 // readerPathFuncs: the reader goroutine's code — everything statically reachable from (*Conn).ReadFrom.
@@ -932,4 +934,71 @@ func c13Unregister(r *core.Run) {
 		}
 	}
 	r.Check(why == "", "R13.12", "Channel.Close: unregisters on every path that marks closed", fn.Pos(), fmt.Sprintf("%d store(s) of closed = true, every return they dominate is dominated by the delete", len(marks)), why)
+}
+
+// c13ConnCtx: R13.13. "The connection's context" of the property is the one handed to NewConn: Conn.ctx is assigned
+// in NewConn only, from context.WithCancel (or another context.With*) of that very parameter. A connection context
+// rooted in context.Background() is cancelled by Close alone, and the tdsConn.ctx arms of NextPackage and sendPackets
+// never fire when the caller cancels what it passed.
+func c13ConnCtx(r *core.Run) {
+	p := r.Prog
+	nc := p.Func("tds", "", "NewConn")
+	fCtx := p.Field("tds", "Conn", "ctx")
+	var ctxParam *ssa.Parameter
+	for _, prm := range nc.Params {
+		if core.IsContextType(prm.Type()) {
+			ctxParam = prm
+		}
+	}
+	var fromParam func(v ssa.Value, d int) bool
+	fromParam = func(v ssa.Value, d int) bool {
+		if d > 6 || v == nil {
+			return false
+		}
+		v = core.Strip(v)
+		if v == ssa.Value(ctxParam) {
+			return true
+		}
+		if ex, ok := v.(*ssa.Extract); ok {
+			v = ex.Tuple
+		}
+		if c, ok := v.(*ssa.Call); ok {
+			if f := c.Call.StaticCallee(); f != nil && f.Pkg != nil && f.Pkg.Pkg.Path() == "context" && strings.HasPrefix(f.Name(), "With") && len(c.Call.Args) > 0 {
+				return fromParam(c.Call.Args[0], d+1)
+			}
+		}
+		return false
+	}
+	n := 0
+	for _, fn := range p.ModuleFuncs() {
+		if fn.Blocks == nil || p.FuncInOverlay(fn) {
+			continue
+		}
+		for _, b := range fn.Blocks {
+			for _, in := range b.Instrs {
+				st, ok := in.(*ssa.Store)
+				if !ok {
+					continue
+				}
+				fa, ok := st.Addr.(*ssa.FieldAddr)
+				if !ok || core.FieldOfAddr(fa) != fCtx {
+					continue
+				}
+				n++
+				why := ""
+				switch {
+				case fn != nc:
+					why = core.FuncName(fn) + " replaces the connection's context outside NewConn"
+				case ctxParam == nil:
+					why = "NewConn takes no context"
+				case !fromParam(st.Val, 0):
+					why = "Conn.ctx is " + core.Expr(st.Val) + ", which does not descend from the context passed to NewConn: cancelling that context no longer ends receives and sends on the connection (only Close does)"
+				}
+				r.Check(why == "", "R13.13", core.FuncName(fn)+": Conn.ctx assigned", st.Pos(), "context.WithCancel(ctx) of NewConn's parameter", why)
+			}
+		}
+	}
+	if n == 0 {
+		r.Bad("R13.13", "Conn.ctx assigned", nc.Pos(), "no assignment of Conn.ctx found")
+	}
 }
